@@ -65,7 +65,7 @@ def run(ctx):
               "(reproducible, SPD by exact LDL^T) / array (shape, symmetry, PSD, strict-PD checks) and transformation inits.")
   ctx.trusted = ["Coq 8.16.1 kernel + vm_compute", "hand-written model Model/PSDConv.v tied by this correspondence",
                  "oracles: numpy eigh / cholesky, scipy pinvh, sklearn make_spd_matrix / PCA / LDA (outputs certified per run)",
-                 "soundness of the exact LDL^T positive-definiteness test is not yet mechanised (checker only)"]
+                 "exact LDL^T positive-definiteness certificate: sound by Proofs/Hom.cert_pd_sound (Q2R homomorphism + sum-of-squares)"]
   ok = ctx.build_property()
   terms, recs = [], []
   # ---- 1. eigenvalue sign test, bit-exact
